@@ -322,7 +322,8 @@ def plugin_api_model():
                               Method("mut_features", "mut", ret=("groupptr", "FeaturesGroup", "Mut"))], rettmp_fields=[("mut_features", ("group", "FeaturesGroup", "Mut"))]),
     ]
     groups = {"FeaturesGroup": (["MainFeature"], ["KeyValueStore", "KeyValueDumper", "Clone"])}
-    user = [(0, "typedef struct TypeLayout TypeLayout;\n\ntypedef const char *ReprCStr;\n"),
+    # TypeLayout is a foreign (abi_stable) type cbindgen cannot see: it is only *used*; the tool adds its declaration
+    user = [(0, "typedef const char *ReprCStr;\n"),
             (2, "typedef struct CSliceRef_u8 {\n    const uint8_t *data;\n    uintptr_t len;\n} CSliceRef_u8;\n\ntypedef struct KeyValue {\n    struct CSliceRef_u8 _0;\n    uintptr_t _1;\n} KeyValue;\n\n"
                 "typedef struct Callback_c_void__KeyValue {\n    void *context;\n    bool (*func)(void*, struct KeyValue);\n} Callback_c_void__KeyValue;\n\ntypedef struct Callback_c_void__KeyValue OpaqueCallback_KeyValue;\n\n"
                 "typedef OpaqueCallback_KeyValue KeyValueCallback;\n\ntypedef struct CIterator_i32 {\n    void *iter;\n    int32_t (*func)(void*, int32_t *out);\n} CIterator_i32;\n")]
@@ -345,10 +346,16 @@ USER_DECLS = [
 USER_FUNCS = ["int32_t user_thing_drop(struct UserThing *thing);", "void user_clone(const struct UserThing *from, struct UserThing *to);", "uint32_t settings_context_flags(const struct Settings_Context *s);"]
 
 
-def random_model(seed, fnptr=False, wrapped=False):
+def random_model(seed, fnptr=False, wrapped=False, layout=False, plain=False):
+    """layout: an exported item mentions the foreign `const TypeLayout *` (what layout_checks exports);
+    plain: a header without any CGlue object or group (only user declarations and functions)"""
     m = _random_model(seed, fnptr)
     if wrapped:
         add_wrapped(m, random.Random(seed ^ 0x77a9))
+    if plain:
+        m.roots = []
+    if layout:
+        m.functions.append(random.Random(seed ^ 0x1a70).choice(["extern const TypeLayout *ROOT_LAYOUT;", "const TypeLayout *get_root_layout(void);"]))
     return m
 
 
